@@ -949,6 +949,9 @@ fn parse_case_gen(seed: u64) -> (Vec<u8>, usize, Rng) {
                 let pad = if rng.chance(1, 4) { Some(rng.byte()) } else { None };
                 let prio = if rng.chance(1, 4) { Some((rng.chance(1, 2), sid + 2, rng.byte())) } else { None };
                 let (fm, cm) = if rng.chance(1, 2) { (rng.usize_below(40), 1 + rng.usize_below(200)) } else { (0, 0) };
+                // (at most ~250 CONTINUATION frames: h2 bounds their number - 320 at a 64 KiB frame size - as a DoS defence;
+                // more is refused with ENHANCE_YOUR_CALM by design, see C18)
+                let cm = if cm == 0 { 0 } else { cm.max(blk.len() / 250 + 1) };
                 if blk.len() + 300 < max_recv {
                     if rng.chance(1, 5) {
                         wf::push_promise(sid, 2 + 2 * rng.below(40) as u32, &blk, pad, fm, cm, &mut bytes);
